@@ -1,5 +1,6 @@
 # Copyright (c) 2023 Graphcore Ltd. All rights reserved.
 import logging
+from dataclasses import astuple
 from typing import Any, Callable, Dict, List, Optional, Tuple, TypeVar
 
 import torch.nn.functional as F
@@ -10,10 +11,13 @@ from torch.fx.node import Node
 
 from .. import functional as U
 from .._internal_utils import generate__all__
-from ..formats import FPFormat, format_to_tuple, tuple_to_format
+from ..formats import FPFormat
 from .utils import Backend, apply_transform, replace_node_with_function
 
 logger = logging.getLogger(__name__)
+
+# (exponent_bits, mantissa_bits, rounding, srbits): all fields of an FPFormat
+FormatTuple = Tuple[int, int, str, int]
 
 
 # These functions currently have to be defined explicitly to make PyTorch happy
@@ -22,11 +26,11 @@ def _quantised_linear(
     input: Tensor,
     weight: Tensor,
     bias: Optional[Tensor],
-    fwd_format_tuple: Tuple[int, int],
-    bwd_format_tuple: Tuple[int, int],
+    fwd_format_tuple: FormatTuple,
+    bwd_format_tuple: FormatTuple,
 ) -> Tensor:
-    fwd_format = tuple_to_format(fwd_format_tuple)
-    bwd_format = tuple_to_format(bwd_format_tuple)
+    fwd_format = FPFormat(*fwd_format_tuple)
+    bwd_format = FPFormat(*bwd_format_tuple)
     input = fwd_format.quantise_fwd(input)
     weight = fwd_format.quantise_fwd(weight)
     output = F.linear(input, weight, bias)
@@ -37,12 +41,12 @@ def _quantised_u_linear(
     input: Tensor,
     weight: Tensor,
     bias: Optional[Tensor],
-    fwd_format_tuple: Tuple[int, int],
-    bwd_format_tuple: Tuple[int, int],
+    fwd_format_tuple: FormatTuple,
+    bwd_format_tuple: FormatTuple,
     constraint: Optional[str] = "to_output_scale",
 ) -> Tensor:
-    fwd_format = tuple_to_format(fwd_format_tuple)
-    bwd_format = tuple_to_format(bwd_format_tuple)
+    fwd_format = FPFormat(*fwd_format_tuple)
+    bwd_format = FPFormat(*bwd_format_tuple)
     input, weight = (fwd_format.quantise_fwd(t) for t in (input, weight))
     output = U.linear(input, weight, bias, constraint)
     return bwd_format.quantise_bwd(output)
@@ -52,12 +56,12 @@ def _quantised_scaled_dot_product_attention(
     query: Tensor,
     key: Tensor,
     value: Tensor,
-    fwd_format_tuple: Tuple[int, int],
-    bwd_format_tuple: Tuple[int, int],
+    fwd_format_tuple: FormatTuple,
+    bwd_format_tuple: FormatTuple,
     **kwargs: Any,
 ) -> Tensor:
-    fwd_format = tuple_to_format(fwd_format_tuple)
-    bwd_format = tuple_to_format(bwd_format_tuple)
+    fwd_format = FPFormat(*fwd_format_tuple)
+    bwd_format = FPFormat(*bwd_format_tuple)
     query, key, value = (fwd_format.quantise_fwd(t) for t in (query, key, value))
     output = F.scaled_dot_product_attention(query, key, value, **kwargs)
     return bwd_format.quantise_bwd(output)
@@ -67,12 +71,12 @@ def _quantised_u_scaled_dot_product_attention(
     query: Tensor,
     key: Tensor,
     value: Tensor,
-    fwd_format_tuple: Tuple[int, int],
-    bwd_format_tuple: Tuple[int, int],
+    fwd_format_tuple: FormatTuple,
+    bwd_format_tuple: FormatTuple,
     **kwargs: Any,
 ) -> Tensor:
-    fwd_format = tuple_to_format(fwd_format_tuple)
-    bwd_format = tuple_to_format(bwd_format_tuple)
+    fwd_format = FPFormat(*fwd_format_tuple)
+    bwd_format = FPFormat(*bwd_format_tuple)
     query, key, value = (fwd_format.quantise_fwd(t) for t in (query, key, value))
     output = U.scaled_dot_product_attention(query, key, value, **kwargs)
     return bwd_format.quantise_bwd(output)
@@ -99,7 +103,7 @@ def _replace_with_quantised(
         args.append(None)
     # Breaks when I pass in FPFormat objects, so convert to tuple and back
     args = (
-        args[:3] + [format_to_tuple(fwd_format), format_to_tuple(bwd_format)] + args[3:]
+        args[:3] + [astuple(fwd_format), astuple(bwd_format)] + args[3:]
     )
 
     assert callable(node.target)
